@@ -346,22 +346,33 @@ fn fstr(f: &Fact, sy: &Symbols) -> String {
     }
 }
 
-/// (wrong probabilities, derivable facts missing from the store)
-fn compare(reported: &BTreeMap<Fact, f64>, expected: &BTreeMap<Fact, f64>, sy: &Symbols) -> (Vec<String>, Vec<String>) {
-    let mut wrong = Vec::new();
-    let mut missing = Vec::new();
+/// every fact whose reported probability differs from the expected one (a fact that is not in the
+/// store reports nothing: that is a difference iff its expected probability is positive)
+fn compare(reported: &BTreeMap<Fact, f64>, expected: &BTreeMap<Fact, f64>, sy: &Symbols) -> Vec<String> {
+    let mut diffs = Vec::new();
     for (f, rep) in reported {
         let exp = expected.get(f).copied().unwrap_or(0.0);
         if !((rep - exp).abs() <= 1e-9) {
-            wrong.push(format!("{}: reported {} expected {}", fstr(f, sy), rep, exp));
+            diffs.push(format!("{}: reported {} expected {}", fstr(f, sy), rep, exp));
         }
     }
     for (f, exp) in expected {
         if *exp > 1e-12 && !reported.contains_key(f) {
-            missing.push(format!("{}: expected {} but the fact is not in the store", fstr(f, sy), exp));
+            diffs.push(format!("{}: expected {} but the fact is not in the store", fstr(f, sy), exp));
         }
     }
-    (wrong, missing)
+    diffs
+}
+
+/// lo(f) - 1e-9 <= reported(f) <= hi(f) + 1e-9 for every fact (absent = 0)
+fn between(reported: &BTreeMap<Fact, f64>, lo: &BTreeMap<Fact, f64>, hi: &BTreeMap<Fact, f64>) -> bool {
+    let keys: BTreeSet<&Fact> = reported.keys().chain(lo.keys()).chain(hi.keys()).collect();
+    keys.iter().all(|k| {
+        let r = reported.get(*k).copied().unwrap_or(0.0);
+        let l = lo.get(*k).copied().unwrap_or(0.0);
+        let h = hi.get(*k).copied().unwrap_or(0.0);
+        r.is_finite() && l - 1e-9 <= r && r <= h + 1e-9
+    })
 }
 
 fn expected_for(mode: Mode, exp: &Expect) -> Option<BTreeMap<Fact, f64>> {
@@ -396,33 +407,56 @@ fn judge(out: &mut ShardOut, rules: &[Rule], entries: &[Entry], mode: Mode, exp:
         }
     };
     let obs = run_mode(mode, rules, entries, sy, dec);
-    let mut problems: Vec<(&'static str, String)> = Vec::new();
-    match &obs {
-        Err(msg) => problems.push(("panic", msg.clone())),
-        Ok(rep) => {
-            let (wrong, missing) = compare(rep, &expected, sy);
-            if !wrong.is_empty() {
-                problems.push(("wrong_probability", wrong.join("; ")));
-            }
-            if !missing.is_empty() {
-                problems.push(("derivable_fact_missing", missing.join("; ")));
-            }
-        }
-    }
-    if problems.is_empty() {
+    if problem_of(&obs, &expected, sy).is_none() {
         return true;
     }
+    // Re-execute. The harness side is a pure function of the case; the subject iterates hash maps
+    // with a per-process random state, so its result may legitimately depend on the run. A failing
+    // observation is a failure of the property whether or not the next run repeats it; the variation
+    // is recorded as a tag (never as part of a known finding's scope).
     let again = run_mode(mode, rules, entries, sy, dec);
-    let same = match (&obs, &again) {
+    let varies = !same_obs(&obs, &again);
+    if varies {
+        out.count("failing_runs_whose_result_varies_between_runs", 1);
+    }
+    report(out, rules, entries, mode, &obs, &expected, varies, feats, sy);
+    false
+}
+
+type Observation = Result<BTreeMap<Fact, f64>, String>;
+
+fn same_obs(a: &Observation, b: &Observation) -> bool {
+    match (a, b) {
         (Ok(a), Ok(b)) => close(a, b) && a.len() == b.len(),
         (Err(a), Err(b)) => a == b,
         _ => false,
-    };
-    if !same {
-        out.machinery_errors.push(format!("non-deterministic observation for {}", case_json(rules, entries, mode, sy)));
-        return false;
     }
+}
+
+fn problem_of(o: &Observation, expected: &BTreeMap<Fact, f64>, sy: &Symbols) -> Option<(&'static str, String)> {
+    match o {
+        Err(msg) => Some(("panic", msg.clone())),
+        Ok(rep) => {
+            let d = compare(rep, expected, sy);
+            if d.is_empty() {
+                None
+            } else {
+                Some(("reported_probability_differs_from_possible_worlds", d.join("; ")))
+            }
+        }
+    }
+}
+
+#[allow(clippy::too_many_arguments)]
+fn report(out: &mut ShardOut, rules: &[Rule], entries: &[Entry], mode: Mode, obs: &Observation, expected: &BTreeMap<Fact, f64>, varies: bool, feats: &Features, sy: &Symbols) {
+    let (symptom, detail) = match problem_of(obs, expected, sy) {
+        Some(p) => p,
+        None => return,
+    };
     let mut tags = vec![format!("mode={}", mode.name()), format!("rules={}", rules.len())];
+    if varies {
+        tags.push("result_varies_between_runs".into());
+    }
     let mut add = |b: bool, s: &str| {
         if b {
             tags.push(s.to_string())
@@ -435,27 +469,17 @@ fn judge(out: &mut ShardOut, rules: &[Rule], entries: &[Entry], mode: Mode, exp:
     add(feats.has_varpred_premise, "program_has_variable_predicate_premise");
     add(feats.has_3plus, "program_has_rule_with_3plus_premises");
     add(entries.iter().any(|e| e.1.is_none()), "input_has_certain_facts");
-    if let Ok(rep) = &obs {
-        if feats.has_negation {
-            match single_pass_expectation(mode, rules, entries, sy) {
-                Some(alt) => {
-                    let (w, m) = compare(rep, &alt, sy);
-                    if w.is_empty() && m.is_empty() {
-                        tags.push("explained_by=single_pass_over_negated_rules_after_positive_fixpoint".into());
-                    } else {
-                        tags.push("explained_by=nothing".into());
-                    }
-                }
-                None => tags.push("explained_by=nothing".into()),
-            }
-        } else {
-            tags.push("explained_by=nothing".into());
+    // scope: every reported value lies between what one pass over the negated rules (after the positive
+    // fixpoint) gives and the complete value. The pass reads tags while it improves them, in store
+    // iteration order, so any value in between can come out; values outside are not explained by it.
+    let mut explained = false;
+    if let (Ok(rep), true) = (obs, feats.has_negation) {
+        if let Some(alt) = single_pass_expectation(mode, rules, entries, sy) {
+            explained = between(rep, &alt, expected);
         }
     }
-    for (symptom, detail) in problems {
-        out.fail(case_json(rules, entries, mode, sy), symptom, detail, tags.clone());
-    }
-    false
+    tags.push(if explained { "explained_by=single_pass_over_negated_rules_after_positive_fixpoint".into() } else { "explained_by=nothing".to_string() });
+    out.fail(case_json(rules, entries, mode, sy), symptom, detail, tags);
 }
 
 // ---------------------------------------------------------------------------------------------
@@ -539,7 +563,7 @@ fn run(ctx: &Ctx) -> ShardOut {
             if feats.has_negation {
                 out.count("cases_program_with_negation", 1);
             }
-            if out.evaluations % 4999 == 1 {
+            if !fractional.is_empty() && out.counters.get("cases_with_fractional_derived_probability").copied().unwrap_or(0) % 2999 == 7 {
                 out.sample(json!({"rules": prog.rules.iter().map(|r| rd::rule_str(r, &sy)).collect::<Vec<_>>(), "entries": entries_json(entries, &sy),
                     "exact": exp.exact.iter().map(|(f, p)| json!([sy.fact_str(f), p])).collect::<Vec<_>>()}));
             }
@@ -582,7 +606,23 @@ fn replay(_ctx: &Ctx, case: &Value) -> ShardOut {
     }
     let feats = c05::features(&rules);
     for m in modes {
-        judge(&mut out, &rules, &entries, m, &exp, &feats, &sy, &dec);
+        let expected = match expected_for(m, &exp) {
+            Some(e) => e,
+            None => {
+                out.count("runs_not_judged_minmax_with_negation", 1);
+                continue;
+            }
+        };
+        // the subject's result may depend on the store's (random) iteration order: 8 executions; the
+        // first failing one is reported
+        let obs: Vec<Observation> = (0..8).map(|_| run_mode(m, &rules, &entries, &sy, &dec)).collect();
+        let varies = obs.iter().any(|o| !same_obs(o, &obs[0]));
+        for o in &obs {
+            if problem_of(o, &expected, &sy).is_some() {
+                report(&mut out, &rules, &entries, m, o, &expected, varies, &feats, &sy);
+                break;
+            }
+        }
     }
     out
 }
